@@ -611,6 +611,8 @@ class VariantBase(productmd.common.MetadataBase):
         if hasattr(self, "uid"):
             # detect Variant; we don't want to set parent for VariantBase or Variants
             variant.parent = self
+        elif variant.parent is not None:
+            raise ValueError("Variant %s is a child of %s" % (variant.uid, variant.parent.uid))
 
         variant.validate()
         variant_id = variant_id or variant.id
@@ -619,6 +621,16 @@ class VariantBase(productmd.common.MetadataBase):
             if variant in parents:
                 parent_uids = sorted([i.uid for i in parents])
                 raise ValueError("Dependency cycle detected; variant %s; parents: %s" % (variant.uid, parent_uids))
+        # UIDs are unique in the whole tree, not only among siblings
+        top = getattr(getattr(self, "_metadata", None), "variants", None)
+        if isinstance(top, VariantBase):
+            todo = [variant]
+            while todo:
+                var = todo.pop()
+                other = top._find_uid(var.uid)
+                if other is not None and other is not var:
+                    raise ValueError("Variant UID already exists: %s" % var.uid)
+                todo.extend(var.variants.values())
         new_variant = self.variants.setdefault(variant_id, variant)
         if new_variant != variant:
             raise ValueError("Variant ID already exists: %s" % variant.id)
